@@ -986,7 +986,7 @@ type history struct {
 func buildHistory(a *hnet.Activity, nBlocks, zoneFrom int) (*history, error) {
 	h := &history{a: a, base: a.N}
 	for i := 0; i < nBlocks; i++ {
-		want := -1
+		want := historyOrder(i)
 		if i >= zoneFrom {
 			want = 2
 		}
@@ -1001,6 +1001,19 @@ func buildHistory(a *hnet.Activity, nBlocks, zoneFrom int) (*history, error) {
 		h.imgs = append(h.imgs, snapshot(h.base))
 	}
 	return h, nil
+}
+
+// historyOrder: natural orders, except that every eighth block (from the third on) is ground until it is prime-order:
+// prime blocks release the coinbase / conversion ETXs that give the wallet spendable Qi (a history whose prime chain
+// happens to stay short carries no Qi traffic), and a node whose prime chain is still at genesis re-runs the
+// genesis pending-header hand-down on every restart, concurrently with the coordinator (in go-quai two concurrent
+// worker.GeneratePendingHeader calls can deadlock on worker.mu: pickCoinbases takes the write lock between the two
+// read locks of prepareWork / GetLockupByte - a liveness defect outside this property that would stall a run).
+func historyOrder(i int) int {
+	if i%8 == 2 {
+		return 0
+	}
+	return -1
 }
 
 func hashes(bs []*hnet.Mined) []string {
